@@ -7,8 +7,8 @@
   Parameters: the user function `f : Rat → Option Rat` (`none` = NaN), the square root
   `sq : Rat → Rat` (theorems state what they need of it), and a rounding `rnd : Rat → Rat`
   applied to the new iterate `x4` (where the C++ rounds the result of sqrt and division); the
-  theorems are about `findRoot` = exact arithmetic (`rnd = id`), the driver passes `rndK 200` so
-  that 200 iterations stay bounded.
+  theorems are about `findRoot` = exact arithmetic (`rnd = id`), the driver passes a rounding to 200 significant bits so
+  that 2200 iterations stay bounded.
 -/
 import LpModel.Basic
 namespace Lp.C02
@@ -24,7 +24,7 @@ inductive Outcome where
   | errNaN                -- "Function returns nan at the brackets", exit
   | errNoSignChange       -- "f(xLeft) * f(xRight) > 0", exit
   | errStuck              -- "Ridder's method does not reach the root", exit
-  | maxIter (r : Rat)     -- 200 iterations used up: warning, returns the last iterate
+  | maxIter (r : Rat)     -- 2200 iterations used up: warning, returns the last iterate
   | nanInside             -- the function returned NaN inside the bracket: not modelled
   deriving DecidableEq, Repr
 
@@ -83,6 +83,9 @@ inductive Step where
 
 /-- one pass through the body of the `for` loop -/
 def step (f : Rat → Option Rat) (sq rnd : Rat → Rat) (acc : Rat) (x1 x2 f1 f2 : Rat) : Step :=
+  -- `double x3 = (x1 + x2) / 2.0; if(std::isinf(x3)) x3 = x1 / 2.0 + x2 / 2.0;` (commit 8bf0489): the second
+  -- form is taken only when the double sum overflows; over the rationals both are the same number
+  -- (`midpoint_overflow_branch_noop`), so the model has the one midpoint
   let x3 := (x1 + x2) / 2
   match f x3 with
   | none => .done .nanInside [x3]
@@ -130,8 +133,8 @@ def findRootR (f : Rat → Option Rat) (sq rnd : Rat → Rat) (xl xr acc : Rat) 
       { out := R.out, evals := lo :: hi :: R.evals, heads := R.heads }
   | _, _ => { out := .errNaN, evals := [lo, hi], heads := [] }
 
-/-- `Max_Iterations = 200` (commit 2511823; was 50) -/
-def maxIterations : Nat := 200
+/-- `Max_Iterations = 2200` (commit 063778f; 50 originally, 200 after 2511823) -/
+def maxIterations : Nat := 2200
 
 /-- the model the theorems are about: exact arithmetic -/
 def findRoot (f : Rat → Option Rat) (sq : Rat → Rat) (xl xr acc : Rat) : Res :=
